@@ -1204,8 +1204,236 @@ def part_rejoin(ctx, spec):
 
 
 # =====================================================================================================
-EXEC = {"join": exec_join, "asm": exec_asm, "rejoin": exec_rejoin}
-PARTS = {"join": part_join, "qm": part_qm, "par": part_par, "asm": part_asm, "rejoin": part_rejoin, "near": part_near}
+# main : the entry point above the loop - molli.scripts.combine.molli_main driven with an argument vector
+#   cores / substituents are written to .mlib files, `molli combine` runs in-process (nprocs=1), the output
+#   library is read back.  Labels of the attachment points vs. their atom indices in every order x every
+#   order of `-a` on the command line x mode x route (by label / one shared label / by atom type).
+# =====================================================================================================
+MAIN_MODES = ("permutns", "same", "combns", "combns_repl")
+MARKERS = ("S", "P", "Cl")
+
+
+class _Alarm(Exception):
+    pass
+
+
+def _run_main(combine, argv, seconds=60):
+    import contextlib
+    import io
+    import signal
+
+    def _h(sig, frm):
+        raise _Alarm()
+
+    buf = io.StringIO()
+    old = signal.signal(signal.SIGALRM, _h)
+    signal.alarm(seconds)
+    try:
+        with contextlib.redirect_stdout(buf), contextlib.redirect_stderr(buf):
+            combine.molli_main(list(argv))
+    finally:
+        signal.alarm(0)
+        signal.signal(signal.SIGALRM, old)
+    return buf.getvalue()
+
+
+def exec_main(ctx, case):
+    import os
+    import shutil
+    from collections import Counter
+    from mc.core import HarnessError
+
+    combine = _combine_module()
+    G = N.seed_rotation(ctx.seed)
+    route = case["route"]
+    mode = case["mode"]
+    cmd = [int(x) for x in case["cmd_order"]]  # label numbers in the order they are given with -a
+    nap = len(cmd)
+    work = os.path.join(str(ctx.scratch), f"main-{os.getpid()}")
+    shutil.rmtree(work, ignore_errors=True)
+    os.makedirs(work)
+    ctx.count(evaluations=1, states=1, traces=1)
+    # ---- inputs --------------------------------------------------------------------------------------------
+    cores = []
+    for cn, (sk, aps, pos, sigma) in enumerate(case["cores"]):
+        rows, bl = frag_spec(sk, tuple(aps), pos, f"K{cn}q", eoff=cn)
+        Mc, tc = N.pose_matrix((cn + case.get("pose", 0)) % len(N.POSES))
+        K = build(ml.Molecule, rows, bl, [c @ G for c in _pose_coords(rows, Mc, tc)], f"core{cn}", 0, 1)
+        # attachment point number k of the fragment carries label X<sigma[k]>  (or one shared label)
+        for a in K.atoms:
+            if a.atype == AtomType.AttachmentPoint:
+                k = int(a.label.split("AP")[1])
+                a.label = "XX" if route == "shared-label" else f"X{int(sigma[k])}"
+        cores.append(K)
+    subs = []
+    for sn in range(int(case["nsubs"])):
+        srows, sbl = frag_spec("p2", (0,), AP_POS[sn % 3], f"S{sn}x", eoff=sn, apoff=7)
+        Ms, ts = N.pose_matrix((sn + 3) % len(N.POSES))
+        S = build(ml.Molecule, srows, sbl, [c @ G for c in _pose_coords(srows, Ms, ts)], f"sub{sn}", 0, 1)
+        S.get_atom(f"S{sn}x0").element = MARKERS[sn]
+        subs.append(S)
+    try:
+        for fn, objs in (("cores.mlib", cores), ("subs.mlib", subs)):
+            lib = ml.MoleculeLibrary(os.path.join(work, fn), readonly=False, overwrite=True)
+            with lib.writing(timeout=10):
+                for o in objs:
+                    lib[o.name] = o
+        lib = ml.MoleculeLibrary(os.path.join(work, "subs.mlib"), readonly=True)
+        with lib.reading(timeout=10):
+            sub_order = list(lib.keys())  # the order in which molli will hand the substituents to itertools
+        lib = ml.MoleculeLibrary(os.path.join(work, "cores.mlib"), readonly=True)
+        with lib.reading(timeout=10):
+            core_back = {k: lib[k] for k in lib.keys()}
+    except Exception as e:
+        raise HarnessError(f"C12 main: could not prepare the input libraries: {_exc(e)}: {e}")
+    subs_by_name = {s_.name: s_ for s_ in subs}
+    # ---- reference model: which atom of the core must carry the k-th substituent --------------------------
+    def targets(K):
+        """anchor labels in the order the substituents of a combination are to be attached"""
+        apl = [(i, a.label) for i, a in enumerate(K.atoms) if a.atype == AtomType.AttachmentPoint]
+        nb = {}
+        for b in K.bonds:
+            nb.setdefault(b.a1.label, []).append(b.a2)
+            nb.setdefault(b.a2.label, []).append(b.a1)
+        if route == "by-label":
+            order = []
+            for num in cmd:
+                order += [i for i, lab in apl if lab == f"X{num}"]
+        else:  # one shared label, or no -a at all: the attachment points in the order of the atom list
+            order = [i for i, _ in apl]
+        anch = []
+        for i in order:
+            ap = K.atoms[i]
+            other = [b.a2 if b.a1 is ap else b.a1 for b in K.bonds if b.a1 is ap or b.a2 is ap]
+            anch.append(other[0].label)
+        return anch, order
+
+    if mode == "permutns":
+        combos = list(itertools.permutations(sub_order, nap))
+    elif mode == "same":
+        combos = [tuple([n_] * nap) for n_ in sub_order]
+    elif mode == "combns":
+        combos = list(itertools.combinations(sub_order, nap))
+    else:
+        combos = list(itertools.combinations_with_replacement(sub_order, nap))
+    asc = all(targets(K)[1] == sorted(targets(K)[1]) for K in cores)
+    pre = f"molli_main[route={route},attachment-indices-in-requested-order={'ascending' if asc else 'not-ascending'}]"
+    what = f"molli combine -m {mode} {' '.join('-a X%d' % n_ for n_ in cmd) if route == 'by-label' else ('-a XX' if route == 'shared-label' else '(no -a)')} on cores {[(c[0], c[1], c[2], c[3]) for c in case['cores']]}"
+    argv = [os.path.join(work, "cores.mlib"), "-s", os.path.join(work, "subs.mlib"), "-o", os.path.join(work, "out.mlib"), "-m", mode, "--overwrite", "-n", "1"]
+    if route == "by-label":
+        for num in cmd:
+            argv += ["-a", f"X{num}"]
+    elif route == "shared-label":
+        argv += ["-a", "XX"]
+    found = []
+    try:
+        _run_main(combine, argv)
+        ctx.count(transitions=len(combos) * len(cores) * nap)
+        out = ml.MoleculeLibrary(os.path.join(work, "out.mlib"), readonly=True)
+        with out.reading(timeout=10):
+            prods = {k: out[k] for k in out.keys()}
+    except _Alarm:
+        ctx.violation(f"{pre}:did-not-finish", f"{what}: molli_main did not return within 60 s", case)
+        shutil.rmtree(work, ignore_errors=True)
+        return
+    except (Exception, SystemExit) as e:
+        ctx.violation(f"{pre}:raised-{_exc(e)}", f"{what}: molli_main raised {_exc(e)}: {e}", case)
+        ctx.outcome(("main", route, mode, asc, "raised"))
+        shutil.rmtree(work, ignore_errors=True)
+        return
+    want = {}
+    if not combos or not nap:
+        pass
+    for K in cores:
+        for cb in combos:
+            want["_".join([K.name] + list(cb))] = (K, cb)
+    if set(prods) != set(want):
+        found.append(("product-names-differ", f"library holds {sorted(prods)[:4]}..., expected {sorted(want)[:4]}... ({len(prods)} vs {len(want)})"))
+    for name in sorted(set(prods) & set(want)):
+        K, cb = want[name]
+        P = prods[name]
+        anch, _ = targets(K)
+        exp_labels = Counter(a.label for a in K.atoms if a.atype != AtomType.AttachmentPoint)
+        for sname in cb:
+            exp_labels.update(a.label for a in subs_by_name[sname].atoms if a.atype != AtomType.AttachmentPoint)
+        got_labels = Counter(a.label for a in P.atoms)
+        if P.name != name:
+            found.append(("product-name-differs-from-its-key", f"{name}: name {P.name!r}"))
+        if got_labels != exp_labels or any(a.atype == AtomType.AttachmentPoint for a in P.atoms):
+            found.append(("atoms-differ", f"{name}: atoms {dict(got_labels)} expected {dict(exp_labels)}"))
+            continue
+        core_labels = {a.label for a in K.atoms}
+        nbrs = {}
+        for b in P.bonds:
+            for x, y in ((b.a1, b.a2), (b.a2, b.a1)):
+                if x.label in core_labels and y.label not in core_labels:
+                    nbrs.setdefault(x.label, Counter())[(y.label, y.element.symbol)] += 1
+        exp = {}
+        for k, sname in enumerate(cb):
+            sn = int(sname[3:])
+            exp.setdefault(anch[k], Counter())[(f"S{sn}x0", MARKERS[sn])] += 1
+        if nbrs != exp:
+            found.append(
+                (
+                    "substituent-on-the-wrong-attachment-point",
+                    f"{name}: core atom -> (substituent atom, marker element) is {{{', '.join(f'{k}: {sorted(v)}' for k, v in sorted(nbrs.items()))}}}, expected {{{', '.join(f'{k}: {sorted(v)}' for k, v in sorted(exp.items()))}}}",
+                )
+            )
+        nb_exp = sum(1 for b in K.bonds if b.a1.atype != AtomType.AttachmentPoint and b.a2.atype != AtomType.AttachmentPoint) + sum(
+            1 for sname in cb for b in subs_by_name[sname].bonds if b.a1.atype != AtomType.AttachmentPoint and b.a2.atype != AtomType.AttachmentPoint
+        ) + nap
+        if P.n_bonds != nb_exp:
+            found.append(("bonds-differ", f"{name}: {P.n_bonds} bonds, expected {nb_exp}"))
+    seen = set()
+    for sym, text in found:
+        if sym in seen:
+            continue
+        seen.add(sym)
+        ctx.violation(f"{pre}:{sym}", f"{what}: {text}", case)
+    ctx.outcome(("main", route, mode, asc, nap, len(cores), tuple(sorted(seen)), len(prods)))
+    if not found:
+        ctx.nontrivial(("main", repr(sorted((k_, repr(v_)) for k_, v_ in case.items()))))
+    shutil.rmtree(work, ignore_errors=True)
+
+
+def main_cases(thorough):
+    out = []
+    two = [("p3", [0, 2], "first"), ("p3", [0, 2], "last"), ("s4", [1, 2], "after"), ("a1", [0, 0], "first"), ("r3", [0, 1], "last")]
+    three = [("s4", [1, 2, 3], "after"), ("p3", [0, 1, 2], "first"), ("a1", [0, 0, 0], "last")]
+    n = 0
+    for cores_, nap in ((two, 2), (three, 3)):
+        perms = list(itertools.permutations(range(nap)))
+        for ci, core in enumerate(cores_):
+            if not thorough and nap == 3 and ci == 2:
+                continue
+            for sigma in perms:  # which label sits on which attachment point: index order vs label numbers
+                for cmd in perms:  # order of -a on the command line
+                    modes = MAIN_MODES if (thorough or nap == 2) else [MAIN_MODES[(n + j) % 4] for j in (0, 1)]
+                    for mode in modes:
+                        n += 1
+                        case = {"family": "main", "route": "by-label", "mode": mode, "cmd_order": list(cmd), "nsubs": 3 if nap == 3 or n % 2 else 2, "pose": n % 6, "cores": [list(core) + [list(sigma)]]}
+                        out.append(case)
+                        if n % 3 == 0 or thorough:
+                            # a second core in the same library: other atom order, other label placement
+                            other = cores_[(ci + 1) % len(cores_)]
+                            out.append(dict(case, cores=[list(core) + [list(sigma)], list(other) + [list(perms[(perms.index(sigma) + 1) % len(perms)])]]))
+            for route in ("shared-label", "by-type"):
+                for mode in MAIN_MODES:
+                    out.append({"family": "main", "route": route, "mode": mode, "cmd_order": list(range(nap)), "nsubs": 3, "pose": ci, "cores": [list(core) + [list(perms[ci % len(perms)])]]})
+    return out
+
+
+def part_main(ctx, spec):
+    lo, hi = spec
+    for i, c in enumerate(main_cases(ctx.thorough)[lo:hi]):
+        exec_main(ctx, c)
+        if lo == 0 and i == 2:
+            ctx.sample(c)
+
+
+# =====================================================================================================
+EXEC = {"join": exec_join, "asm": exec_asm, "rejoin": exec_rejoin, "main": exec_main}
+PARTS = {"join": part_join, "qm": part_qm, "par": part_par, "asm": part_asm, "rejoin": part_rejoin, "near": part_near, "main": part_main}
 
 
 def _run_part(ctx, part):
@@ -1239,7 +1467,10 @@ def run(ctx):
         "antiparallel attachment vectors (" + par_text + " x {global pose, both anchors at the origin, axis aligned} x optimize_rotation) with EVERY "
         "answer of a 12-entry numpy.random.rand menu (+ answers parallel to v2 when they lie in [0,1)^3); every case is executed at least twice "
         "with different answers and different global generator seeds; iterated joins through scripts/combine._ml_assemble for every order of "
-        "core_aps; near-degenerate relative orientations: B's attachment vector turned by {0.01, 0.3, 1, 2, 5} degrees off exactly antiparallel "
+        "core_aps; the entry point molli_main driven in-process with an argument vector on .mlib files (cores with 2 and 3 labelled attachment "
+        "points: every placement of the labels on the attachment points x every order of -a on the command line x modes "
+        "{permutns, same, combns, combns_repl} x routes {by label, one shared label, by atom type}, one or two cores per library), products read "
+        "back from the output library and identified by marker elements; near-degenerate relative orientations: B's attachment vector turned by {0.01, 0.3, 1, 2, 5} degrees off exactly antiparallel "
         "and off exactly parallel to A's, about 3 (thorough: 4) axes orthogonal to it, x both optimize_rotation settings x dist {None, 1.5} "
         "(quick: 7 x 7 fragment pairs, two of the four option pairs per case in rotation; thorough: 19 x 19, all four); "
         "histories on the SAME objects: join -> [join at the other attachment point of a two-attachment fragment] -> one in-place "
@@ -1254,6 +1485,7 @@ def run(ctx):
         "atoms are identified by their (unique) labels, so no atom order is demanded of the product; when one substituent object is used twice its copies are told apart by order of use",
         "'points along A's former attachment direction' and B's orientation are judged without assuming how A is moved: A (resp. B) together with the point where its attachment point has to end up - at the original anchor-AP distance along the new bond - must be congruent (distances and signed volumes) with the input fragment including its attachment point",
         "near-degenerate orientations (tilt family) are judged with 1e-9 widened to 256 eps / max(1+cos(v2,-v1), 1e-6) <= 5.7e-8, the conditioning of the rotation join documents to build with tol=1e-6; everything else stays at 1e-9",
+        "molli_main layer: nprocs=1, no --hadd, no --obopt; products come back through the library codec (single precision), so only names, atom/bond tables and which core atom carries which substituent (marker element S / P / Cl) are judged there; the expected combinations are itertools over the substituents in the order the library lists them",
         "dist=None requests no length: only a finite positive bond length is demanded there",
         "a multiplicity override of 0 is not a multiplicity and is not enumerated; the charge override 0 is",
         "partial (atomic) charges of the inputs are not part of the property; shared attrib dictionaries belong to C06",
@@ -1282,6 +1514,10 @@ def run(ctx):
     na = len(asm_cases(thorough))
     for lo, hi in _chunks(na, 16):
         parts.append(("asm", (lo, hi)))
+    nm = len(main_cases(thorough))
+    for lo, hi in _chunks(nm, 16):
+        parts.append(("main", (lo, hi)))
+    ctx.bound["molli_main_cases"] = nm
     nn = len(near_cases(thorough))
     for lo, hi in _chunks(nn, 16):
         parts.append(("near", (lo, hi)))
